@@ -23,6 +23,7 @@ type c16CacheAn struct {
 	reachM  map[*ast.FuncDecl]int
 	visited map[string]bool
 	n       int
+	prims   int // removal primitives found at the end of the chain
 }
 
 func (a *c16CacheAn) isRemoval(f *flow.Func, call *ast.CallExpr) bool {
@@ -36,7 +37,7 @@ func (a *c16CacheAn) reaches(d *ast.FuncDecl, depth int) bool {
 	a.reachM[d] = 1
 	f := flow.NewFunc(a.e.pkg, d)
 	yes := false
-	for _, call := range calls(d.Body, false) {
+	for _, call := range calls(d.Body, true) { // closures included: `b.withLock(func() {...})`
 		if a.isRemoval(f, call) {
 			yes = true
 			break
@@ -66,6 +67,7 @@ func (a *c16CacheAn) check(f *flow.Func, name string, depth int) {
 	for _, call := range calls(f.Body, false) {
 		if a.isRemoval(f, call) {
 			sites = append(sites, call)
+			a.prims++
 			continue
 		}
 		if fo, ok := c16FnOK(f, call); ok {
@@ -73,6 +75,38 @@ func (a *c16CacheAn) check(f *flow.Func, name string, depth int) {
 				sites = append(sites, call)
 				next = append(next, d)
 			}
+		}
+	}
+	// a closure handed to a helper that always runs it (`b.withLock(func() {...})`) is the next link
+	var nextLits []*ast.FuncLit
+	for _, call := range calls(f.Body, false) {
+		fo, ok := c16FnOK(f, call)
+		if !ok || a.e.decls[fo] == nil {
+			continue
+		}
+		for i, arg := range call.Args {
+			lit, ok := ast.Unparen(arg).(*ast.FuncLit)
+			if !ok {
+				continue
+			}
+			lf := f.Lit(lit)
+			litReaches := false
+			for _, c2 := range calls(lit.Body, true) {
+				if a.isRemoval(lf, c2) {
+					litReaches = true
+				} else if fo2, ok := c16FnOK(lf, c2); ok && a.e.decls[fo2] != nil && a.reaches(a.e.decls[fo2], 0) {
+					litReaches = true
+				}
+			}
+			if !litReaches {
+				continue
+			}
+			if always, _ := a.w.runsParam(a.e.decls[fo], i); !always {
+				c.Undecide("R-C16-7", cons, pos(c, call), "the removal of the cached session sits in a closure handed to a helper that does not call it on every path; the rule cannot follow that")
+				return
+			}
+			sites = append(sites, call)
+			nextLits = append(nextLits, lit)
 		}
 	}
 	if len(sites) == 0 {
@@ -130,6 +164,9 @@ func (a *c16CacheAn) check(f *flow.Func, name string, depth int) {
 	for _, d := range next {
 		a.check(flow.NewFunc(a.e.pkg, d), declName(a.e.pkg, d), depth+1)
 	}
+	for _, lit := range nextLits {
+		a.check(f.Lit(lit), name+"$func", depth+1)
+	}
 }
 
 func c16Cache(e *c16Env) {
@@ -161,5 +198,6 @@ func c16Cache(e *c16Env) {
 		c.Violate("R-C16-7", name+"$deferred|owner's teardown always removes the cached session", pos(c, f.Body), "the read loop has no deferred teardown: nothing removes the connection's session from the cache when the connection ends")
 		return
 	}
-	c.RequireCount("R-C16-7", "functions on the chain from the read loop's teardown to the session cache", a.n, 3)
+	c.RequireCount("R-C16-7", "functions on the chain from the read loop's teardown to the session cache", a.n, 1)
+	c.RequireCount("R-C16-7", "removals of the session-cache entry at the end of that chain", a.prims, 1)
 }
